@@ -44,6 +44,7 @@ namespace bxdecay0 {
 
   void Ru100low(i_random & prng_, event & event_, const int levelkev_)
   {
+    BXDECAY0_VERIF_SCOPE("scheme:Ru100low", levelkev_);
     // static const double pi = M_PI;
     static const double twopi = 2 * M_PI;
     // double t;
